@@ -53,6 +53,7 @@ def machine_spec(
     multi_provider=True,
     payload=True,
     shared_names=False,
+    instance_cbs=False,
 ):
     """Draw a valid machine spec.  async_mode: none | all | mixed | one."""
     n, edges, finals = draw(graph(max_states=max_states, max_extra=max_extra))
@@ -147,6 +148,10 @@ def machine_spec(
                 for c2 in list(cbs):  # a name is resolved on every provider that has it
                     if c2["name"] == c["name"] and c2["group"] == c["group"]:
                         cbs.append(dict(c2, group=grp, sends={}))
+    if instance_cbs:
+        for c in cbs:
+            if c["attach"] == "conv" and c["prov"] not in ("machine", "free", "ext") and not c["prov"].startswith("late") and draw(st.integers(0, 9)) < 2:
+                c["instance"] = True
     # guard definitions: every used name on 1..2 construction-time providers
     gdefs = []
     used = sorted({g for t in trans for g in t["cond"] + t["unless"]})
